@@ -105,6 +105,10 @@ def discharge(site, ts, ex):
             if 0 <= v < 2 ** 63:
                 return "R-const-arith", ""
             return None, "constant arithmetic %s %s %s overflows" % (x, site["op"], y)
+        if kind == "Overflow" and site.get("op") in ("Add", "Sub") and isinstance(ops.get("a"), tuple) and ops["a"][0] == "pre" \
+                and ops["a"][1].startswith("self.") and ops["a"][1].split(".")[-1] in ts.len_fields and ts.buffers and ops.get("b") == cu(1):
+            # a Box<[f64]> of length period exists: 1 <= period <= isize::MAX / 8
+            return ("R-period-inc (period + 1 <= isize::MAX)" if site["op"] == "Add" else "R-period-dec (period >= 1)"), ""
         if kind == "Overflow" and site.get("op") == "Add" and isinstance(ops.get("a"), tuple) and ops["a"][0] == "ivar" and ops.get("b") == cu(1):
             bnd = ex.ivar_bounds.get(ops["a"])
             if bnd is not None:
